@@ -53,6 +53,12 @@ def occurrences(eng, x, L):
     if hit is not None:
         return hit[0]
     n = x.nz()
+    if not (z3.is_const(x.arr) and x.arr.decl().kind() == z3.Z3_OP_UNINTERPRETED):
+        # a computed array (lambda term, store chain): its cells are no triggers; name it cell by cell
+        named = SArr.fresh("int", x.n, name="named")
+        t = z3.Int(fresh_name("nt"))
+        eng.assume(z3.ForAll([t], z3.Select(named.arr, t) == to_z3(x.get(t), "int"), patterns=[z3.Select(named.arr, t)]))
+        x = named
     tag = fresh_name("occ")
     C = z3.Function("C_" + tag, I, I, I)
     occ = z3.Function(tag, I, I)
